@@ -40,11 +40,12 @@ def cases(tier, seed):
                 out.append(dict(base, mask={"kind": "fancy", "L": L}, witness=wit and L == 3))
             full = (func, dt) in (("sum", "float64"), ("first", "int64"), ("size", "float64"))
             if full:
-                sl = [(a, b, s) for a in bounds for b in bounds for s in (None, 1, 2)]
+                sl = [(a, b, s) for a in bounds for b in bounds for s in (None, 1, 2, -1, -2)]
                 if tier == "quick":
-                    sl = sl[::3]
+                    sl = sl[::5] + sl[3::5][::3] + sl[4::5][::7]
             else:
-                sl = [(1, None, None), (None, -1, None), (None, None, 2), (-3, 3, 1), (N, None, None), (-N - 1, N + 1, 2)]
+                sl = [(1, None, None), (None, -1, None), (None, None, 2), (-3, 3, 1), (N, None, None), (-N - 1, N + 1, 2),
+                      (None, None, -1), (N - 1, None, -2), (2, -N - 3, -1), (None, 0, -1)]
             for a, b, s in sl:
                 out.append(dict(base, mask={"kind": "slice", "start": a, "stop": b, "step": s}))
     if tier == "thorough":
@@ -71,8 +72,8 @@ def validate(E, seed, tier):
 
 
 META = {
-    "bounds": {"quick": {"N": 4, "G": 2, "positions": "L in {1,3}", "slices": "start/stop in {None,-5..5} x step in {None,1,2} (every third for sum/first/size, 6 for the rest)"},
-               "thorough": {"N": 6, "G": 3, "positions": "L <= 3", "slices": "all start/stop in {None,-7..7} x step {None,1,2} for sum/first/size; 6 for the rest",
+    "bounds": {"quick": {"N": 4, "G": 2, "positions": "L in {1,3}", "slices": "start/stop in {None,-5..5} x step in {None,1,2,-1,-2} (a third for sum/first/size, 10 for the rest)"},
+               "thorough": {"N": 6, "G": 3, "positions": "L <= 3", "slices": "all start/stop in {None,-7..7} x step {None,1,2,-1,-2} for sum/first/size; 10 for the rest",
                             "extra": "N=8 unmasked and N=7 symbolic boolean mask for float64/int64"}},
     "enumerated": ["slice bounds", "length of the integer-position mask", "dtype"],
     "symbolic": ["group codes in {-1,0..G-1}", "values and null flags", "boolean mask bits", "integer positions in [-N, N)"],
